@@ -16,9 +16,9 @@ def rng(a, b, step=1):
 
 
 DWT1_OPS = {
-    "quick": dict(NSet=rng(2, 24), LSet=rng(2, 12, 2), ModeSet=MODES, Shard=0, NShards=1, Emit=True,
+    "quick": dict(NSet=rng(2, 24), LSet=rng(2, 12, 2), ModeSet=MODES, Shard=0, NShards=1, Emit=True, EmitGrad=False,
                   GradFix=False, PerFix=True, PRMaxN=12, PRMaxL=8),
-    "thorough": dict(NSet=rng(2, 48), LSet=rng(2, 20, 2), ModeSet=MODES, Shard=0, NShards=1, Emit=True,
+    "thorough": dict(NSet=rng(2, 48), LSet=rng(2, 20, 2), ModeSet=MODES, Shard=0, NShards=1, Emit=True, EmitGrad=False,
                      GradFix=False, PerFix=True, PRMaxN=20, PRMaxL=12),
 }
 DWT1_OPS_INV = ["AnalysisOK", "AnalysisDevExact", "SynthesisOK", "SynthesisDevExact", "RefPR",
@@ -26,9 +26,9 @@ DWT1_OPS_INV = ["AnalysisOK", "AnalysisDevExact", "SynthesisOK", "SynthesisDevEx
 
 DWT1_CALLS = {
     "quick": dict(NSet=rng(2, 24), LSet=rng(2, 12, 2), ModeSet=MODES, JMax=3, Apis={"fwd"},
-                  Shard=0, NShards=1, Emit=True, NoneFix=False, GuardFix=False, PerFix=True),
+                  Shard=0, NShards=1, Emit=True, NoneFix=True, GuardFix=True, PerFix=True),
     "thorough": dict(NSet=rng(2, 48), LSet=rng(2, 20, 2), ModeSet=MODES, JMax=4, Apis={"fwd"},
-                     Shard=0, NShards=1, Emit=True, NoneFix=False, GuardFix=False, PerFix=True),
+                     Shard=0, NShards=1, Emit=True, NoneFix=True, GuardFix=True, PerFix=True),
 }
 
 
@@ -47,10 +47,10 @@ def eqpairs(ls):
 DWT2_CALLS = {
     "quick": dict(HWCodes=code(sq(2, 9) | {(h, w) for h in (12, 17, 24) for w in (2, 3, 5)} | {(w, h) for h in (12, 17, 24) for w in (2, 3, 5)}),
                   LCodes=code(eqpairs([2, 4, 6])), ModeSet=MODES, JMax=2, Apis={"fwd"}, Shard=0, NShards=1,
-                  Emit=True, NoneFix=False, GuardFix=False, SlotFix=False, PerFix=True),
+                  Emit=True, NoneFix=True, GuardFix=True, SlotFix=False, PerFix=True),
     "thorough": dict(HWCodes=code(sq(2, 16) | {(h, w) for h in (21, 24, 33) for w in (2, 3, 5, 8)} | {(w, h) for h in (21, 24, 33) for w in (2, 3, 5, 8)}),
                      LCodes=code(eqpairs([2, 4, 6, 8, 10])), ModeSet=MODES, JMax=3, Apis={"fwd"}, Shard=0, NShards=1,
-                     Emit=True, NoneFix=False, GuardFix=False, SlotFix=False, PerFix=True),
+                     Emit=True, NoneFix=True, GuardFix=True, SlotFix=False, PerFix=True),
 }
 
 
